@@ -821,7 +821,7 @@ def run_e2e_sweep(ctx, base_cases):
             seg, before = pick(mode, opt)
             cases.append(sweep_case(seg, before, E2E_CTX[(j * 5 + ctx.seed) % len(E2E_CTX)], opt, mode))
     else:
-        for rep in range(2):
+        for rep in range(1):        # the full product context x delivery x option
             for c in E2E_CTX:
                 for mode in E2E_MODES:
                     for opt in [""] + E2E_OPTS:
@@ -896,7 +896,13 @@ def run(ctx):
                        "against the predicates (distinct live ids, wait returns only when all finished, exactly one start/end per "
                        "job, foreground order). end to end: brush binary vs bash on generated scripts (1-8 jobs: brace, subshell, "
                        "external, pipelines, function, and-or, loops; marker file + stdout), -c / stdin / file delivery, taskset "
-                       "0 / 0,1 / all, pause points job_start, job_poll. non-trivial = at least 2 jobs or 4 ops")
+                       "0 / 0,1 / all, pause points job_start, job_poll. non-trivial = at least 2 jobs or 4 ops. "
+                       "context sweep: a seeded sample of the in-process cases with every wait / wait %spec / jobs re-issued from inside "
+                       "a function, two functions deep, eval, brace group with redirects, loop body, sourced file, subshell, $( ) "
+                       "(model: runIn); a seeded sample of the scripts wrapped in " + ", ".join(E2E_CTX) + " x delivery -c / stdin / file / "
+                       "interactive x options (" + "; ".join(E2E_OPTS) + "), bash in the same context/option as oracle; subshell "
+                       "job-table isolation cases; every other synchronisation form (wait %N %+ %- %% several specs, -n, %str, pid, $!, "
+                       "kill %N, disown, jobs -p -l -r -s, set -m) classified by clause")
     ctx.assumptions += ["tokio delivers a completed task's JoinHandle result to the awaiting wait (runtime, not proved)",
                         "effects of a finished job (file writes, output) are visible once its task has returned: observed "
                         "end to end with marker files, not proved",
@@ -907,6 +913,8 @@ def run(ctx):
 
 def replay(ctx, rp):
     ok, out = lib.cargo_build([BIN])
+    if isinstance(rp, list):         # a corpus file of sweep cases: replay the first
+        rp = rp[0]
     case = rp.get("case") or rp      # a replay file, or a corpus case given directly
     if "ops" in case:
         line = " ".join(case["ops"])
